@@ -142,23 +142,78 @@ def r9_2(ctx):
 
 def r9_3(ctx):
     ctx.rule("R9.3", "measure mirrors render constants: Padding measures with left+right, the same quantity its render subtracts; Panel's measure adds horizontal padding + 2 as its render does; Tree indents 4 per level (C08 R8.5); Constrain/Styled/Align delegate to the child with the same width cap; Table._measure_column caps every returned measurement at its max_width")
+    from ..astutil import inline as _inl, single_defs as _sdf
+    from ..linear import eq as _leq, lin as _lin
+    from .common import return_forms
     pm = ctx.repo.fn("padding:Padding.__rich_measure__")
     pr = ctx.repo.fn("padding:Padding.__rich_console__")
-    src = norm(pm.node)
-    ok = "extra_width = self.left + self.right" in src and "Measurement(measure_min + extra_width, measure_max + extra_width)" in src and "max(0, max_width - extra_width)" in src
+    psd = _sdf(pm.node)
+    E = {"self.left": 1, "self.right": 1}
+    # the child is measured at max(0, max_width - (left + right))
+    gets = [c for c in walk_local(pm.node) if isinstance(c, ast.Call) and norm(c.func) == "Measurement.get" and len(c.args) == 3]
+    unpack = [x for x in walk_local(pm.node) if isinstance(x, ast.Assign) and isinstance(x.targets[0], ast.Tuple) and len(x.targets[0].elts) == 2 and x.value in gets]
+    ok = len(gets) == 1 and len(unpack) == 1
+    if ok:
+        a2 = _inl(gets[0].args[2], psd)
+        ok = isinstance(a2, ast.Call) and norm(a2.func) == "max" and len(a2.args) == 2 and any(norm(z) == "0" for z in a2.args) and any(_leq(_lin(z), {"max_width": 1, "self.left": -1, "self.right": -1}) for z in a2.args)
+        lo, hi = (norm(e) for e in unpack[0].targets[0].elts)
+    if ok:
+        # every non-degenerate return adds left + right back to both bounds and caps them at max_width
+        forms = return_forms(pm)
+        seen_main = False
+        for facts, v in forms:
+            v = _inl(v, psd)
+            txt = norm(v)
+            if txt == "Measurement(max_width, max_width)":
+                continue
+            seen_main = True
+            capped_call = isinstance(v, ast.Call) and isinstance(v.func, ast.Attribute) and v.func.attr == "with_maximum" and len(v.args) == 1 and norm(v.args[0]) == "max_width"
+            core = v.func.value if capped_call else v
+            good = isinstance(core, ast.Call) and norm(core.func) == "Measurement" and len(core.args) == 2
+            if good:
+                for arg, base in zip(core.args, (lo, hi)):
+                    inner = arg
+                    if not capped_call:
+                        if not (isinstance(arg, ast.Call) and norm(arg.func) == "min" and len(arg.args) == 2 and any(norm(z) == "max_width" for z in arg.args)):
+                            good = False
+                            break
+                        inner = [z for z in arg.args if norm(z) != "max_width"][0]
+                    want = dict(E)
+                    want[base] = 1
+                    if not _leq(_lin(inner), want):
+                        good = False
+            ok = ok and good
+        ok = ok and seen_main
     ctx.check(ok, pm.fq, "extra_width = self.left + self.right", pm.where, "Padding measure adds left + right around the child's measure at (max_width - left - right)", "Padding.__rich_measure__ does not measure the child at max_width - (left + right) and add the same back")
-    ctx.check("options.update(width=width - self.left - self.right)" in norm(pr.node), pr.fq, "render subtracts left + right", pr.where, "render subtracts the same left + right", "Padding render no longer subtracts left + right from the width")
+    rsd = _sdf(pr.node)
+    upd = [c for c in walk_local(pr.node) if isinstance(c, ast.Call) and norm(c.func) == "options.update" and kwarg(c, "width") is not None]
+    ok = len(upd) == 1 and _leq(_lin(_inl(kwarg(upd[0], "width"), rsd, keep=("width",))), {"width": 1, "self.left": -1, "self.right": -1})
+    ctx.check(ok, pr.fq, "render subtracts left + right", pr.where, "render subtracts the same left + right", "Padding render no longer subtracts left + right from the width")
     pn = ctx.repo.fn("panel:Panel.__rich_measure__")
     s = norm(pn.node)
     ok = "padding = left + right" in s and "max_width - padding - 2" in s and "+ padding + 2" in s.replace("\n", " ")
     ctx.check(ok, pn.fq, "measure(children, max_width - padding - 2) + padding + 2", pn.where, "Panel measure mirrors border (2) and horizontal padding", "Panel.__rich_measure__ does not subtract and re-add padding + 2 (the border) consistently")
-    for spec in ("constrain:Constrain.__rich_measure__", "styled:Styled.__rich_measure__", "align:Align.__rich_measure__"):
+    for spec in ("styled:Styled.__rich_measure__", "align:Align.__rich_measure__"):
         f = ctx.repo.fn(spec)
         calls = [c for c in walk_local(f.node) if isinstance(c, ast.Call) and norm(c.func) == "Measurement.get"]
         ok = len(calls) == 1 and len(calls[0].args) == 3 and norm(calls[0].args[2]) == "max_width"
         ctx.check(ok, f.fq, short(calls[0]) if calls else "?", f.where, "delegates to the child's measurement under the same cap", f"{f.qualname} does not measure its child through Measurement.get(console, child, max_width)")
     cm = ctx.repo.fn("constrain:Constrain.__rich_measure__")
-    ctx.check("max_width = min(self.width, max_width)" in norm(cm.node), cm.fq, "min(self.width, max_width)", cm.where, "Constrain caps the measure like its render", "Constrain.__rich_measure__ does not cap at min(self.width, max_width) as its render does")
+    okc = True
+    n_c = 0
+    for facts, v in return_forms(cm):
+        n_c += 1
+        if not (isinstance(v, ast.Call) and norm(v.func) == "Measurement.get" and len(v.args) == 3):
+            okc = False
+            continue
+        w = v.args[2]
+        if facts.get("self.width is None") is True:
+            okc = okc and norm(w) == "max_width"
+        elif facts.get("self.width is None") is False:
+            okc = okc and isinstance(w, ast.Call) and norm(w.func) == "min" and sorted(norm(z) for z in w.args) == ["max_width", "self.width"]
+        else:
+            okc = False
+    ctx.check(okc and n_c >= 2, cm.fq, "min(self.width, max_width)", cm.where, "Constrain caps the measure like its render", "Constrain.__rich_measure__ does not cap at min(self.width, max_width) as its render does")
     tc = ctx.repo.fn("table:Table._measure_column")
     n = 0
     from ..yieldpaths import Unsupported, paths_of, resolve, show
